@@ -160,6 +160,23 @@ def run(tier, seed, opens):
                             ok += 1
                     except Exception as e:
                         fail('warm gettransactions', sc, 'raised %s: %s' % (type(e).__name__, str(e)[:150]), 'the full answer')
+                # raw transactions from the cache: the bytes of the stored transaction
+                state['down'] = True
+                for t in state['chain'][:2]:
+                    cases += 1
+                    try:
+                        g = Service(network=net, cache_uri=db).getrawtransaction(t.txid)
+                        if g != t.raw_hex():
+                            fail('warm getrawtransaction', dict(scen, txid=t.txid[-6:]), str(g)[:120], t.raw_hex()[:120])
+                        else:
+                            ok += 1
+                    except ServiceError:
+                        ok += 1
+                    except Exception as e:
+                        if type(e).__name__ == 'Down' or 'getrawtransaction' in str(e):
+                            ok += 1
+                        else:
+                            fail('warm getrawtransaction', dict(scen, txid=t.txid[-6:]), 'raised %s: %s' % (type(e).__name__, str(e)[:150]), 'stored raw transaction or ServiceError')
                 # single transactions from the cache
                 state['down'] = True
                 for t in state['chain'][:2]:
